@@ -74,6 +74,13 @@ CLAIMED = {
             'Text of a value is delegated to Python str()/format(). Open known finding: missing separators (see known_findings.jsonl); '
             'the trace spec then runs in lenient mode for that clause only.',
             'DESIGN.md section 6, C19'),
+    'C18': ('model_checking', 'TLC trace validation of Capture(S0); S1; Replay histories against TraceSnapshot.tla',
+            'Random populations mixing plain, multizone (1..40 zones) and matrix (1x1..11x5) lights with hostile names and edge-value '
+            'states are captured by the real ScriptSnapshot (and by WebApp.snapshot for every 25th); the script is compiled and run by '
+            'the real pipeline against the same simulated lights in a different state; TLC decides light by light whether the captured '
+            'colour/power/zones/cells were restored exactly, and that the script compiled and ran.',
+            'Trusted: SimLan device state bookkeeping (zone message start <= z < end; tile message row-major).',
+            'DESIGN.md section 6, C18'),
 }
 
 REASONS_PENDING = 'check not built yet in this round (planned in DESIGN.md section 6); no claim is made'
